@@ -342,6 +342,18 @@ func (e *functionEntry) resolveArgs(arguments []interface{}) ([]interface{}, err
 	if len(arguments) < len(e.arguments) {
 		return nil, errors.New("invalid arity")
 	}
+	// Every argument of a variadic function is checked, the extra ones
+	// against the last (variadic) parameter.
+	for i, userArg := range arguments {
+		spec := e.arguments[len(e.arguments)-1]
+		if i < len(e.arguments) {
+			spec = e.arguments[i]
+		}
+		err := spec.typeCheck(userArg)
+		if err != nil {
+			return nil, err
+		}
+	}
 	return arguments, nil
 }
 
